@@ -290,6 +290,7 @@ def gen_case(P, tree, workdir):
     with OpsRecorder(P.mbs) as rec:
         rc = eu.generate(P, root, eccp)
     res = {"rc": rc}
+    res["bad_parity_lengths"] = [(k_, len(e_), P.mbs - k_) for (k_, m_), e_ in rec.e.items() if len(e_) != max(0, P.mbs - k_)]
     if rc != "0" or not os.path.exists(eccp):
         return res
     data = open(eccp, "rb").read()
@@ -331,9 +332,23 @@ def gen_cases(rng, n, workdir, oc, label="generation"):
             tree["edge.bin"] = bytes(rng.randrange(256) for _ in range(bsize))
         if it % 7 == 3:
             tree["empty.dat"] = b""
+        if it % 6 == 5:
+            # very low rates with small blocks: blocks without any parity symbol (message size = max_block_size) towards the end of a file
+            P.tool, P.mbs, P.algo = "whole", rng.choice([5, 10, 10, 20]), rng.choice([3, 4])
+            P.r1, P.r2, P.r3 = rng.choice([0.3, 0.5]), rng.choice([0.1, 0.05]), rng.choice([0.02, 0.01])
+            P.size = rng.choice([7, 64])
+            tree = {"lowrate.bin": bytes(rng.randrange(256) for _ in range(rng.choice([300, 800, 1500])))}
+            oc.count("%s: zero-parity blocks (very low stage-3 rate)" % label)
         if not tree:
             continue
         r = gen_case(P, tree, os.path.join(workdir, "gen"))
+        for (k_, m_), e_ in list(r.get("enc_lengths", {}).items())[:0]:
+            pass
+        for (k_, ln_, want_) in r.get("bad_parity_lengths", [])[:2]:
+            oc.violations.append({"input": {"params": P.describe(), "tree": {a: b_.hex() for a, b_ in tree.items()}},
+                                  "impl": {"k": k_, "parity_length": ln_}, "required": {"parity_length": want_},
+                                  "what": "during generation the codec returned a parity of %d symbols for a block with message size %d "
+                                          "(max_block_size %d: %d expected)" % (ln_, k_, P.mbs, want_)})
         if "request" in r and len(r["request"]) < 600000:
             lines.append(r["request"])
             impl.append(r["reply"])
